@@ -832,12 +832,18 @@ pub fn gen_case(rng: &mut Rng, pool_len: usize, focus: &str, nops: usize) -> Gen
         "c08" => rng.chance(1, 5),
         _ => rng.chance(1, 2),
     };
-    let max_incoming = match rng.below(4) {
+    let max_incoming: usize = match rng.below(4) {
         0 => 16,
         1 => rng.below(3) as usize,
         _ => rng.below(17) as usize,
     };
-    let timeout_zero = rng.chance(1, 2);
+    let mut timeout_zero = rng.chance(1, 2);
+    // scripted scenario around the incoming limit and the pending slot (see below)
+    let scripted_incoming = focus == "c07" && rng.chance(1, 4);
+    let max_incoming = if scripted_incoming { rng.range(1, 4) as usize } else { max_incoming };
+    if scripted_incoming {
+        timeout_zero = false;
+    }
     // buckets in play: a few, weighted towards the ends
     let scripted_c16 = focus == "c16" && rng.chance(1, 2);
     let nb = if scripted_c16 { 7 } else { rng.range(2, 5) as usize };
@@ -929,6 +935,29 @@ pub fn gen_case(rng: &mut Rng, pool_len: usize, focus: &str, nops: usize) -> Gen
             let i = 16 + rng.below(4) as usize;
             ops.push(Op::InsertOrUpdate(keys[focus_b][i], slot_of(focus_b, i) * VARIANTS, true, false));
         }
+    } else if scripted_incoming {
+        // a full bucket whose head is disconnected and which is one short of the incoming limit; a
+        // connected incoming candidate becomes pending; then the bucket reaches the limit by a status
+        // report (or the candidate's own status changes) and the candidate's timeout elapses
+        let lim = max_incoming;
+        for i in 0..16 {
+            let (conn, inc) = if i < 3 { (false, i == 1) } else if i < 3 + lim - 1 { (true, true) } else { (rng.chance(1, 2), false) };
+            let v = pick_val(rng, slot_of(focus_b, i));
+            ops.push(Op::InsertOrUpdate(keys[focus_b][i], v, conn, inc));
+        }
+        let v = pick_val(rng, slot_of(focus_b, 16));
+        let cand_inc = rng.chance(2, 3);
+        ops.push(Op::InsertOrUpdate(keys[focus_b][16], v, true, cand_inc));
+        match rng.below(3) {
+            0 => ops.push(Op::UpdateStatus(keys[focus_b][1 + rng.below(2) as usize], true, Some(true))),
+            1 => ops.push(Op::Entry(keys[focus_b][16], Action::PendingUpdate(true, true))),
+            _ => {
+                ops.push(Op::UpdateStatus(keys[focus_b][2], true, Some(true)));
+                ops.push(Op::UpdateStatus(keys[focus_b][16], true, Some(true)));
+            }
+        }
+        ops.push(Op::ForceReady(bucket_choice[focus_b]));
+        ops.push(if rng.chance(1, 2) { Op::Iter } else { Op::Entry(keys[focus_b][0], Action::Look) });
     } else if rng.chance(3, 4) {
         // fill the focus bucket: mostly disconnected nodes so that a pending slot can arise
         let n_fill = 15 + rng.below(4) as usize;
